@@ -649,8 +649,9 @@ def run_affected_closure(prog, tier, repo):
     if len(closure_fns) != 1:
         # the closure is computed in another shape (a method parameterised by a direction, an inline worklist): the composition
         # cannot be read off two calls; not decided rather than reported
-        res.ok(f'query:{query[0].name}', query[0].loc(), f'not decided: no single closure function over an edge map ({len(closure_fns)} found)')
+        # (no instance is recorded under the obligation's key: an undecided view must not count as a clean second opinion)
         res.analysed['decided'] = False
+        res.analysed['undecided_because'] = f'no single closure function over an edge map ({len(closure_fns)} found)'
         return [res]
     q = query[0]
     # which map holds the imported-by edges: the one `new` fills under the key `import.imported_module`
@@ -673,8 +674,8 @@ def run_affected_closure(prog, tier, repo):
         if len(named) == 1:
             reverse = named[0]
     if reverse is None:
-        res.ok(f'query:{q.name}', q.loc(), 'not decided: cannot tell which edge map holds the imported-by edges')
         res.analysed['decided'] = False
+        res.analysed['undecided_because'] = 'cannot tell which edge map holds the imported-by edges'
         return [res]
     forward = [f for f in map_fields if f != reverse][0]
 
